@@ -66,8 +66,8 @@ func sanitize(c *hostileCase) {
 		return
 	}
 	for _, txt := range c.Files {
-		u := strings.ToUpper(txt)
-		if strings.Contains(u, "GENERATE") && strings.Contains(u, "INCLUDE") && strings.Contains(u, "$GENERATE") {
+		u := normLex(txt)
+		if strings.Contains(u, "GENERATE") && strings.Contains(u, "INCLUDE") {
 			c.Cfg.Allowed = false
 			return
 		}
@@ -102,6 +102,12 @@ func FuzzZoneParser(f *testing.F) {
 		if pbt.Known(kGenErrRecord) && riskyModifier(c.Files) {
 			return
 		}
+		if pbt.Known(kGenEOF) && endsInBareGenerate(c.Files) {
+			return
+		}
+		if pbt.Known(kGenQuadratic) && longGenerate(c.Files) {
+			return
+		}
 		_, viol := runParser(c.Files, c.Cfg, exerciseRecord)
 		if viol != nil {
 			writeFuzzViolation("fuzz-zone", c, viol)
@@ -114,10 +120,16 @@ type newRRCase struct{ Text string }
 
 // checkNewRR is the oracle of FuzzNewRR (also registered as the replayable sub "fuzz-newrr").
 func checkNewRR(c newRRCase) error {
-	if strings.Contains(strings.ToUpper(c.Text), "INCLUDE") {
+	if strings.Contains(normLex(c.Text), "INCLUDE") {
 		return nil // NewRR is documented to allow includes from the real file system
 	}
 	if pbt.Known(kGenErrRecord) && riskyModifier(map[string]string{"": c.Text}) {
+		return nil
+	}
+	if pbt.Known(kGenEOF) && endsInBareGenerate(map[string]string{"": c.Text + "\n"}) {
+		return nil
+	}
+	if pbt.Known(kGenQuadratic) && longGenerate(map[string]string{"": c.Text}) {
 		return nil
 	}
 	type res struct {
